@@ -548,3 +548,57 @@ func TestFinding45and56_CacheEvictionAndLayoutExtension(t *testing.T) {
 		t.Fatalf("recreated page: got %q err=%v", buf.String(), err)
 	}
 }
+
+// rows 60-64 — literals, computed indexes, pipe heads and strict operators in value positions (C13.R10/R14/R15/R17)
+func TestFinding60to64_LiteralsAndStrictOperators(t *testing.T) {
+	data := map[string]any{"n": 3, "items": []string{"a", "b"}, "idx": 1, "x": 1, "y": 2}
+	for src, want := range map[string]string{
+		`<p>{{ 'hello' }}</p>`:                `<p>hello</p>`,
+		`<p>{{ 5 }}</p>`:                      `<p>5</p>`,
+		`<p>{{ items[idx] }}</p>`:             `<p>b</p>`,
+		`<p>{{ "hello" | upper }}</p>`:        `<p>HELLO</p>`,
+		`<p>{{ n !== 3 }}|{{ n === 3 }}</p>`:  `<p>false|true</p>`,
+		`<p v-show="x !== y">s</p>`:           `<p>s</p>`,
+		`<p :class="{on: x !== y}">c</p>`:     `<pclass="on">c</p>`,
+		`<p>{{ missing | default("d") }}</p>`: `<p>d</p>`,
+	} {
+		out, err := renderFS(t, map[string]string{"p.vuego": src}, "p.vuego", data)
+		if got := strings.Join(strings.Fields(out), ""); err != nil || got != want {
+			t.Errorf("%s: got %q err=%v, want %q", src, got, err, want)
+		}
+	}
+}
+
+// row 65 — the empty expression has no value (C13.R19); a regression of repair 33, found when the kept seeded
+// changes were re-confirmed against a later HEAD (the demonstration of C11c failed without its change)
+func TestFinding65_EmptyExpressionHasNoValue(t *testing.T) {
+	for src, want := range map[string]string{
+		`<p>{{ }}</p>`:          `<p></p>`,
+		`<p>{{}}</p>`:           `<p></p>`,
+		`<p :title="">x</p>`:    `<p>x</p>`,
+		`<p :class="">x</p>`:    `<p>x</p>`,
+		`<a title="{{}}">x</a>`: `<atitle="">x</a>`,
+	} {
+		out, err := renderFS(t, map[string]string{"p.vuego": src}, "p.vuego", map[string]any{})
+		if got := strings.Join(strings.Fields(out), ""); err != nil || got != want {
+			t.Errorf("%s: got %q err=%v, want %q", src, got, err, want)
+		}
+	}
+}
+
+// row 66 — data that contains itself is printed without ending the process (C11.R11). Before the repair this
+// test does not fail, it kills the test binary: "fatal error: stack overflow".
+func TestFinding66_CyclicDataIsPrintable(t *testing.T) {
+	m := map[string]any{"a": 1}
+	m["self"] = m
+	s := []any{1, nil}
+	s[1] = s
+	for _, x := range []any{m, s, map[string]any{"deep": []any{m}}} {
+		for _, src := range []string{`<p>{{ x }}</p>`, `<p :title="x" :class="x" class="c">t</p>`, `<p v-text="x"></p><p v-html="x"></p>`, `<p :style="{color: x}">z</p>`, `<p>{{ x | string }}{{ x | trim }}</p>`} {
+			out, err := renderFS(t, map[string]string{"p.vuego": src}, "p.vuego", map[string]any{"x": x})
+			if err != nil || !strings.Contains(out, "(cyclic)") {
+				t.Errorf("%s: got %q err=%v", src, out, err)
+			}
+		}
+	}
+}
